@@ -13,6 +13,12 @@ type FPOpts struct {
 	// Skip lists struct field names that are not part of the compared state
 	// (caches that legitimately differ between a fresh and a used instance).
 	Skip map[string]bool
+	// DepthsOnly renders only the lengths of slices (stack depths, token and collect buffers),
+	// found anywhere below the root. This is the "every internal nesting stack is back at its idle
+	// depth" reading of C17: scalars, strings, maps and the elements of slices are left to the
+	// behavioural probes, so that a refactoring which adds a scratch field or a cache does not
+	// change the idle picture.
+	DepthsOnly bool
 }
 
 // Fingerprint renders the private state of an instance (pointer to struct) by reflection.
@@ -52,6 +58,9 @@ func fpWalk(sb *strings.Builder, v reflect.Value, o FPOpts, seen map[unsafe.Poin
 		return
 	}
 	if v.Type() == reflectValueType {
+		if o.DepthsOnly {
+			return
+		}
 		rv := access(v)
 		if rv.CanInterface() {
 			if x, ok := rv.Interface().(reflect.Value); ok {
@@ -86,6 +95,10 @@ func fpWalk(sb *strings.Builder, v reflect.Value, o FPOpts, seen map[unsafe.Poin
 		}
 		sb.WriteByte('}')
 	case reflect.Slice:
+		if o.DepthsOnly {
+			fmt.Fprintf(sb, "len%d", v.Len())
+			return
+		}
 		if v.Type().Elem().Kind() == reflect.Uint8 {
 			fmt.Fprintf(sb, "b%d:%x", v.Len(), v.Bytes())
 			return
@@ -111,6 +124,9 @@ func fpWalk(sb *strings.Builder, v reflect.Value, o FPOpts, seen map[unsafe.Poin
 		sb.WriteByte('&')
 		fpWalk(sb, v.Elem(), o, seen, depth+1)
 	case reflect.Interface:
+		if o.DepthsOnly {
+			return
+		}
 		if v.IsNil() {
 			sb.WriteString("nil")
 			return
@@ -121,12 +137,26 @@ func fpWalk(sb *strings.Builder, v reflect.Value, o FPOpts, seen map[unsafe.Poin
 		}
 		fmt.Fprintf(sb, "<%v>", v.Elem().Type())
 	case reflect.Map:
+		if o.DepthsOnly {
+			return
+		}
 		keys := make([]string, 0, v.Len())
 		for _, k := range v.MapKeys() {
 			keys = append(keys, keyString(k))
 		}
 		sort.Strings(keys)
 		fmt.Fprintf(sb, "map%d%v", v.Len(), keys)
+	case reflect.UnsafePointer, reflect.Uintptr, reflect.String, reflect.Bool, reflect.Int, reflect.Int8, reflect.Int16, reflect.Int32, reflect.Int64,
+		reflect.Uint, reflect.Uint8, reflect.Uint16, reflect.Uint32, reflect.Uint64, reflect.Float32, reflect.Float64:
+		if o.DepthsOnly {
+			return
+		}
+		fpScalar(sb, v)
+	}
+}
+
+func fpScalar(sb *strings.Builder, v reflect.Value) {
+	switch v.Kind() {
 	case reflect.UnsafePointer, reflect.Uintptr:
 		if v.Kind() == reflect.UnsafePointer && v.Pointer() == 0 {
 			sb.WriteString("p0")
